@@ -52,7 +52,6 @@ func VerifH_C03_open_vs_commit() {
 	symJoin()
 	bkt.sched = false
 	symAssert(bDone, "opener-finished")
-	symAssert(aAcked, "commit-acknowledged")
 	if bErr == nil {
 		// v0 was committed before the open began: the opener's view contains it
 		symAssert(bKeys[1], "opener-sees-every-version-committed-before-its-open")
@@ -63,6 +62,12 @@ func VerifH_C03_open_vs_commit() {
 	symAssert(err == nil, "later-open-ok")
 	ks := vKeysOf(rows)
 	symAssert(ks[1], "earlier-commit-not-lost")
+	if !aAcked {
+		// a commit that was refused (no implementation is obliged to accept it
+		// under contention) promises nothing
+		symReach("end")
+		return
+	}
 	symAssert(ks[2], "acknowledged-commit-not-lost")
 	rw, err := vOpen(bkt.client(3), vTableOpts{bf: 2}, 40)
 	symAssert(err == nil, "later-writable-open-ok")
